@@ -11,9 +11,9 @@ def main(tier, replay=None):
     P = 2 if q else 4
     common = ["signals=0", "verdicts=K", "reorder=1"]
     fams = [
-        dict(scn="c16", name="A-startup-scan-vs-injector", opts=["scenario=A", "msgs=l1"] + common, bounds="%d,0,0,1" % (P + 1), total=P + 2),
-        dict(scn="c16", name="B-two-injectors", opts=["scenario=B", "msgs=l1+r1"] + common, bounds="%d,0,0,1" % P, total=P + 1, deadline=900),
-        dict(scn="c16", name="C-scan-with-older-entries", opts=["scenario=C", "msgs=l1"] + common, bounds="%d,0,0,1" % P, total=P + 1, deadline=900),
+        dict(scn="c16", name="A-startup-scan-vs-injector", opts=["scenario=A", "msgs=l1"] + common, bounds="%d,0,0,1" % (P + 1), total=P + 2, deadline=900 if q else 3600, qcap=0 if q else 8000000),
+        dict(scn="c16", name="B-two-injectors", opts=["scenario=B", "msgs=l1+r1"] + common, bounds="%d,0,0,1" % (P if q else P - 1), total=(P if q else P - 1) + 1, deadline=900 if q else 3600, qcap=0 if q else 8000000),
+        dict(scn="c16", name="C-scan-with-older-entries", opts=["scenario=C", "msgs=l1"] + common, bounds="%d,0,0,1" % P, total=P + 1, deadline=900 if q else 3600, qcap=0 if q else 8000000),
         # timeout rules on quiescent states of delivery histories (C03/C15 histories with the C16 monitors)
         dict(scn="daemon", name="timeouts-deferred-remote", opts=["monitors=C16", "msgs=r1", "verdicts=KZ", "reorder=1"], bounds="0,0,0,%d" % (2 if q else 3), total=3),
         dict(scn="daemon", name="timeouts-deferred-mixed", opts=["monitors=C16", "msgs=l1r1", "verdicts=KZ", "reorder=1"], bounds="0,0,0,%d" % (2 if q else 3), total=3),
